@@ -236,6 +236,19 @@ func (c *Channel) JoinPresence(ctx context.Context, p stanza.Presence, opt ...Op
 		done: ctx.Done(),
 		j:    joinChan,
 	}
+	// The record of an earlier call that has returned (refused by the room, or
+	// given up) may still be queued if no presence came to consume it; it would
+	// keep this call from even sending its request.
+	select {
+	case old := <-c.join:
+		select {
+		case <-old.done:
+		default:
+			// Another call is still waiting: leave it alone.
+			c.join <- old
+		}
+	default:
+	}
 	select {
 	case c.join <- joinCtx:
 	case <-ctx.Done():
